@@ -27,14 +27,15 @@ import Pog.Lemmas.ConvSerTerm
     error_path_no_index      : list positions are reported as `[]`, never with the index (by design of `_extract_errors`)
 
     serializer_no_null_keys  : whatever `DataclassSerializer.serialize` returns has no `None`-valued dict entry      (full)
-    serializer_terminates    : it terminates on object graphs with reference cycles                                    ✗
-        — a cycle that cattrs itself walks (a field whose annotation RESOLVED to the class, an `Any` field, a dict
-          value) is not guarded by the `visited` set: RecursionError, for a 2-cycle, a self reference, a dict holding
-          itself                                                                                          (counterexamples)
+    serializer_terminates    : it terminates on every object graph, with or without reference cycles, whatever the
+                               types, the declarations and the hook registry                                           (full)
+        — (F26 repaired: the unstructure function of every list, dict and dataclass type runs behind the cycle guard that
+          shares the serializer's `visited` set; a 2-cycle through a resolved annotation, a self reference through an
+          `Any` field and a dict holding itself are cut where the object is reached again:
+          `serializer_terminates_former_witness`, `serializer_any_cycle_former_witness`,
+          `serializer_dict_cycle_former_witness`)
         — cycles through `list` objects and through fields annotated with an unresolved forward reference
-          (`Optional["N"]`, as the generator writes self references) ARE cut                                  (examples)
-        — on an ACYCLIC heap (some rank strictly decreases along every reference) it does terminate, whatever the
-          types, the declarations and the registry                                                            (partial)
+          (`Optional["N"]`, as the generator writes self references) are cut as before                        (examples)
     serializer_json_safe     : the result is JSON-serialisable                                                         ✗
         — (F10 repaired: a `UUID` / `time` value now has an unstructure hook and is written as a string:
           `serializer_json_safe_former_witness`)
@@ -224,48 +225,28 @@ theorem serializer_no_null_keys (c : Codecs) (fuel : Nat) (heap : Heap) (decls :
 example : serialize Codecs.exec 5 [(0, .list [.none, .int 1, .ref 1]), (1, .dict [("a".toList, .none)])] [] []
     (.ref 0) = .ok (.arr [.null, .int 1, .obj []], []) := by rfl
 
-/-- ✗ FULL STATEMENT (false): `∀ heap root, ∃ fuel, serialize … fuel heap … root ≠ .error .fuel`.
-    Witness 1: two instances of `class N: name: str; nxt: Optional[N]` referencing each other, the annotation
-    resolved to the class.  cattrs follows `nxt` itself, the `visited` set is never consulted: no budget suffices
-    (CPython: RecursionError — or, when cattrs swallows it while generating a hook, a copy unrolled to the depth of the
-    recursion limit). -/
-theorem serializer_terminates_counterexample (c : Codecs) (reg : List Str) (fuel : Nat) :
-    serialize c fuel cycle2 (nodeDecls true) reg (.ref 0) = .error .fuel :=
-  serialize_cycle2_diverges c reg fuel
-
-/-- `serializer_terminates` for the inputs the code gets right: if the object graph is acyclic — there is a `rank` on
-    object ids such that every reference held by an object points to an object of strictly smaller rank (`Ranked`) —
-    then some budget suffices, for every root, every declaration table and every hook registry: the call returns
-    (a result or a Python exception other than RecursionError). -/
-theorem serializer_terminates_partial (c : Codecs) (heap : Heap) (decls : Decls) (rank : Nat → Nat)
-    (hr : Ranked heap rank) (root : HVal) :
+/-- `serializer_terminates`: for EVERY heap (cyclic or not), every root, every declaration table and every hook registry
+    some budget suffices — the call returns a result or a Python exception other than RecursionError.  (Every container
+    the walk enters — by the serializer's own recursion or inside cattrs, behind the cycle guard — is added to the one
+    `visited` set and never entered again while it is there; the heap has finitely many objects.) -/
+theorem serializer_terminates (c : Codecs) (heap : Heap) (decls : Decls) (root : HVal) :
     ∃ N, ∀ fuel, N ≤ fuel → ∀ reg, serialize c fuel heap decls reg root ≠ .error .fuel :=
-  serF_ev_of_ranked c heap decls rank hr (rankV rank root) root (Nat.le_refl _) []
+  serF_ev_all c heap decls (freeCount heap []) [] (Nat.le_refl _) root
 
-/-- A shared, acyclic graph is `Ranked`: `[s, s]` with `s = N("s")`, and the chain `a → b`. -/
-example : Ranked [(0, .list [.ref 1, .ref 1]), (1, .inst "N".toList [("name".toList, .str "s".toList), ("nxt".toList, .none)])]
-    (fun id => if id = 0 then 1 else 0) := by
-  intro id o hg v hv
-  by_cases h0 : id = 0
-  · subst h0
-    simp [Heap.get] at hg; subst hg
-    simp [HObj.children] at hv; subst hv; simp [rankV]
-  · by_cases h1 : id = 1
-    · subst h1
-      simp [Heap.get] at hg; subst hg
-      simp [HObj.children] at hv
-      rcases hv with rfl | rfl <;> simp [rankV]
-    · have : (0 : Nat) ≠ id := fun e => h0 e.symm
-      have : (1 : Nat) ≠ id := fun e => h1 e.symm
-      simp [Heap.get, *] at hg
+/-- The former first witness against termination (F26, repaired): two instances of `class N: name: str; nxt: Optional[N]`
+    referencing each other, the annotation resolved to the class.  cattrs follows `nxt` itself — now behind the guard:
+    the back reference from `b` to `a` becomes `None` and is dropped, exactly as for the unresolved annotation below. -/
+theorem serializer_terminates_former_witness :
+    serialize Codecs.exec 8 cycle2 (nodeDecls true) [] (.ref 0)
+      = .ok (.obj [("name".toList, .str "a".toList), ("nxt".toList, .obj [("name".toList, .str "b".toList)])],
+             ["N".toList]) := by rfl
 
-/-- The cyclic witness is, of course, not `Ranked`. -/
-example : ¬ ∃ rank, Ranked cycle2 rank := by
-  intro ⟨rank, hr⟩
-  have h0 := hr 0 _ rfl (.ref 1) (by simp [HObj.children])
-  have h1 := hr 1 _ rfl (.ref 0) (by simp [HObj.children])
-  simp only [rankV] at h0 h1
-  omega
+/-- A shared, acyclic graph is serialised in full, every occurrence: `[s, s]` with `s = N("s")` (the guard holds the
+    objects that are being unstructured, not the ones that have been). -/
+example : serialize Codecs.exec 8
+    [(0, .list [.ref 1, .ref 1]), (1, .inst "N".toList [("name".toList, .str "s".toList), ("nxt".toList, .none)])]
+    (nodeDecls true) [] (.ref 0)
+    = .ok (.arr [.obj [("name".toList, .str "s".toList)], .obj [("name".toList, .str "s".toList)]], ["N".toList]) := by rfl
 
 /-- The SAME two objects when the annotation is the unresolved forward reference `Optional["N"]` (what the generator
     emits for self references): cattrs passes `b` through unchanged, `_ensure_all_dicts` serialises it with the
@@ -277,15 +258,15 @@ example : serialize Codecs.exec 8 cycle2 (nodeDecls false) [] (.ref 0)
 /-- A list that contains itself is cut as well: `[1, <itself>]` ↦ `[1, None]`. -/
 example : serialize Codecs.exec 8 [(0, .list [.int 1, .ref 0])] [] [] (.ref 0) = .ok (.arr [.int 1, .null], []) := by rfl
 
-/-- Witness 2: a dict that contains itself (`d = {}; d["x"] = d`) — dicts are handed to cattrs without tracking. -/
-theorem serializer_dict_cycle_counterexample (c : Codecs) (reg : List Str) (decls : Decls) (fuel : Nat) :
-    serialize c fuel dictSelf decls reg (.ref 0) = .error .fuel :=
-  serialize_dictSelf_diverges c reg decls fuel
+/-- The former second witness (F26, repaired): a dict that contains itself (`d = {}; d["x"] = d`).  The inner
+    occurrence becomes `None`, and `None`-valued entries are dropped. -/
+theorem serializer_dict_cycle_former_witness :
+    serialize Codecs.exec 8 dictSelf [] [] (.ref 0) = .ok (.obj [], []) := by rfl
 
-/-- Witness 3: an instance that references itself through an `Any`-typed field (`class A: other: Any`, `a.other = a`). -/
-theorem serializer_any_cycle_counterexample (c : Codecs) (reg : List Str) (fuel : Nat) :
-    serialize c fuel anySelf anyDecls reg (.ref 0) = .error .fuel :=
-  serialize_anySelf_diverges c reg fuel
+/-- The former third witness (F26, repaired): an instance that references itself through an `Any`-typed field
+    (`class A: other: Any`, `a.other = a`). -/
+theorem serializer_any_cycle_former_witness :
+    serialize Codecs.exec 8 anySelf anyDecls [] (.ref 0) = .ok (.obj [], ["A".toList]) := by rfl
 
 /-- The former first witness against JSON safety (F10, repaired).  `class U: u: UUID` — the converter used to have no
     unstructure hook for `UUID` (C03): the object was passed through and `json.dumps` rejected the result.  With the hook
